@@ -190,31 +190,7 @@ Ltac updc :=
   | H : context [upd _ ?k _ ?x] |- _ => unfold upd in H at 1; let E := fresh "U" in destruct (Nat.eqb x k) eqn:E; bools; subst
   end.
 
-(* ================================================================ invariant A: structure *)
-
-Definition holding (p : spc) : bool := match p with SLocked | STry _ | SSelect => true | _ => false end.
-Definition active (p : spc) : bool := match p with STry _ | SSelect => true | _ => false end.
-Definition removed (r : rpc) : bool := match r with RLocked | RHanded | RDone | RRet => true | _ => false end.
-
-Record InvA (st : state) : Prop := {
-  a_nopanic : panicked st = false;
-  a_nodup : NoDup (inbox st ++ arr st);
-  a_live : forall c, In c (inbox st ++ arr st) <-> (c_subd (chs st c) = true /\ removed (rem st c) = false);
-  a_sel : forall c, rem st c = RSelecting -> In c (arr st);
-  a_rem_subd : forall c, rem st c <> RNone -> c_subd (chs st c) = true;
-  a_lock_s : forall s, holding (s_pc (sndr st s)) = true <-> lock st = Some (OSend s);
-  a_lock_r : forall c, rem st c = RLocked <-> lock st = Some (ORem c);
-  a_k : forall s, active (s_pc (sndr st s)) = true -> s_k (sndr st s) <= length (arr st);
-  a_selk : forall s, s_pc (sndr st s) = SSelect -> 0 < s_k (sndr st s)
-}.
-
-Lemma InvA_init : InvA init.
-Proof.
-  constructor; simpl; intros; try discriminate; try congruence; auto;
-    try (split; intros; discriminate).
-  - constructor.
-  - split; [tauto|]. intros [H _]; discriminate.
-Qed.
+(* ================================================================ more list facts *)
 
 Lemma cfind_lt : forall c l j, cfind c l = Some j -> j < length l.
 Proof. intros c l j H. destruct (cfind_some _ _ _ H) as (l1 & l2 & -> & _ & <-). rewrite app_length. simpl. lia. Qed.
@@ -228,56 +204,65 @@ Proof.
   rewrite Nat.sub_diag. reflexivity.
 Qed.
 
-Ltac useI I := pose proof (a_nopanic _ I); pose proof (a_nodup _ I); pose proof (a_live _ I); pose proof (a_sel _ I);
-  pose proof (a_rem_subd _ I); pose proof (a_lock_s _ I); pose proof (a_lock_r _ I); pose proof (a_k _ I); pose proof (a_selk _ I).
-
-
-Definition lists_rel (l : label) (st st' : state) : Prop :=
-  match l with
-  | LSubscribe c _ => Permutation (c :: inbox st ++ arr st) (inbox st' ++ arr st')
-  | LSelRemove _ c | LRemoveLock c | LRemoveInbox c => Permutation (inbox st ++ arr st) (c :: inbox st' ++ arr st')
-  | _ => Permutation (inbox st ++ arr st) (inbox st' ++ arr st')
-  end.
-
 Lemma nodup_app_r : forall (a b : list chan), NoDup (a ++ b) -> NoDup b.
 Proof. induction a; simpl; intros; auto. inversion H; auto. Qed.
 Lemma nodup_app_l : forall (a b : list chan), NoDup (a ++ b) -> NoDup a.
 Proof. intros. apply (nodup_app_r b a). eapply Permutation_NoDup; [apply Permutation_app_comm|]; auto. Qed.
 
-Lemma lists_step : forall st l st', InvA st -> step st l = Some st' -> lists_rel l st st'.
-Proof.
-  intros st l st' I H. useI I. inv_step H; unfold lists_rel; simpl; auto.
-  all: try match goal with M: cfind ?c (arr _) = None, G: rem _ ?c = RSelecting |- _ => exfalso; apply cfind_none in M; apply M; auto end.
-  - rewrite <- app_assoc. simpl. apply Permutation_middle.
-  - apply Permutation_app_comm.
-  - apply Permutation_app_comm.
-  - apply Permutation_app_head, deactivate_perm; auto.
-    apply H7. rewrite M; reflexivity.
-  - destruct (cfind_firstn _ _ _ _ M0) as (A & B & _).
-    apply Permutation_app_head, deactivate_perm; auto.
-    apply H7. rewrite M; reflexivity.
-  - destruct (delete_find _ _ _ M0 (nodup_app_r _ _ H1)) as (l1 & l2 & E & D & _ & _).
-    rewrite D, E. rewrite !app_assoc. apply Permutation_sym, Permutation_middle.
-  - destruct (delete_find _ _ _ M (nodup_app_l _ _ H1)) as (l1 & l2 & E & D & _ & _).
-    rewrite D, E. rewrite <- !app_assoc. simpl. apply Permutation_sym, Permutation_middle.
-  - destruct (delete_find _ _ _ M (nodup_app_r _ _ H1)) as (l1 & l2 & E & D & _ & _).
-    rewrite D, E. rewrite !app_assoc. apply Permutation_sym, Permutation_middle.
-Qed.
-
 Lemma perm_in_iff : forall (a b : list chan) x, Permutation a b -> (In x a <-> In x b).
 Proof. intros. split; apply Permutation_in; auto. apply Permutation_sym; auto. Qed.
 
+Lemma delete_facts : forall c l n, cfind c l = Some n -> NoDup l ->
+  (forall y, In y (delete n l) <-> In y l /\ y <> c) /\ length l = S (length (delete n l)).
+Proof.
+  intros c l n H ND. destruct (delete_find _ _ _ H ND) as (l1 & l2 & E & D & _ & Nin).
+  rewrite D, E. split.
+  - intros y. rewrite !in_app_iff in *. simpl. split.
+    + intros A. split; [tauto|]. intros ->. tauto.
+    + intros [[A|[A|A]] B]; auto. congruence.
+  - rewrite !app_length. simpl. lia.
+Qed.
 
-Ltac useN I := pose proof (a_nopanic _ I) as Hnp; pose proof (a_nodup _ I) as Hnd; pose proof (a_live _ I) as Hlive; pose proof (a_sel _ I) as Hsel;
-  pose proof (a_rem_subd _ I) as Hrs; pose proof (a_lock_s _ I) as Hls; pose proof (a_lock_r _ I) as Hlr; pose proof (a_k _ I) as Hk; pose proof (a_selk _ I) as Hselk.
+Lemma set_nth_length : forall i v (l : list chan), i < length l -> length (set_nth i v l) = length l.
+Proof.
+  intros. unfold set_nth. rewrite app_length, firstn_length.
+  change (length (v :: skipn (S i) l)) with (S (length (skipn (S i) l))). rewrite skipn_length. lia.
+Qed.
 
-Ltac spec I x := try pose proof (a_live _ I x); try pose proof (a_sel _ I x); try pose proof (a_rem_subd _ I x); try pose proof (a_lock_s _ I x);
-  try pose proof (a_lock_r _ I x); try pose proof (a_k _ I x); try pose proof (a_selk _ I x).
+Lemma deactivate_length : forall l k i, length (deactivate l k i) = length l.
+Proof.
+  intros. unfold deactivate. destruct (nth_error l i) eqn:A; auto. destruct (nth_error l (k - 1)) eqn:B; auto.
+  assert (i < length l) by (apply nth_error_Some; congruence).
+  assert (k - 1 < length l) by (apply nth_error_Some; congruence).
+  rewrite set_nth_length; rewrite set_nth_length; auto.
+Qed.
 
-Ltac fin := intuition (try congruence; try discriminate; try lia).
+(* ================================================================ runs *)
 
+Definition reachable (st : state) : Prop := exists tr, run init tr = Some st.
 
+Lemma run_inv : forall (P : state -> Prop), (forall st l st', P st -> step st l = Some st' -> P st') ->
+  forall tr st st', P st -> run st tr = Some st' -> P st'.
+Proof.
+  intros P HS. induction tr as [|l t IH]; intros st st' H R; simpl in R.
+  - inversion R; subst; auto.
+  - destruct (step st l) eqn:E; [|discriminate]. eapply IH; [|exact R]. eapply HS; eauto.
+Qed.
 
+Lemma run_app : forall a b st st', run st (a ++ b) = Some st' <-> exists m, run st a = Some m /\ run m b = Some st'.
+Proof.
+  induction a as [|l a IH]; intros b st st'; simpl.
+  - split; [intros H; exists st; auto | intros (m & A & B); inversion A; subst; auto].
+  - destruct (step st l); [apply IH|]. split; [discriminate | intros (m & A & _); discriminate].
+Qed.
+
+Lemma reachable_step : forall st l st', reachable st -> step st l = Some st' -> reachable st'.
+Proof.
+  intros st l st' [tr R] H. exists (tr ++ [l]). apply run_app. exists st. split; auto. simpl. rewrite H. reflexivity.
+Qed.
+
+Lemma reachable_run : forall tr st st', reachable st -> run st tr = Some st' -> reachable st'.
+Proof. intros tr st st' R H. eapply (run_inv reachable); eauto. intros; eapply reachable_step; eauto. Qed.
 
 (* ================================================================ invariant N: nsent counts deliveries *)
 Definition pre_pc (p : spc) : bool := match p with SNew | SCalled | SLocked | SPanicked => true | _ => false end.
@@ -297,16 +282,6 @@ Proof.
   all: simpl; try lia; auto.
 Qed.
 
-Definition reachable (st : state) : Prop := exists tr, run init tr = Some st.
-
-Lemma run_inv : forall (P : state -> Prop), (forall st l st', P st -> step st l = Some st' -> P st') ->
-  forall tr st st', P st -> run st tr = Some st' -> P st'.
-Proof.
-  intros P HS. induction tr as [|l t IH]; intros st st' H R; simpl in R.
-  - inversion R; subst; auto.
-  - destruct (step st l) eqn:E; [|discriminate]. eapply IH; [|exact R]. eapply HS; eauto.
-Qed.
-
 Lemma reachable_InvN : forall st, reachable st -> InvN st.
 Proof. intros st [tr R]. eapply run_inv; [apply InvN_step|apply InvN_init|exact R]. Qed.
 
@@ -320,23 +295,11 @@ Proof.
   inversion H; subst; simpl. bools. split; congruence.
 Qed.
 
-(* Send(value of the wrong type): f.mu is never released *)
-Lemma mu_leak_refuted : exists tr st c,
-  run init tr = Some st /\ rem st c = RCalled /\ (forall c', can_accept (chs st c') = true \/ c_subd (chs st c') = false) /\
-  enabled st (LRemoveInbox c) = false /\ enabled st (LRemoveNotInbox c) = false /\
-  enabled st (LSubscribe 2 1) = false.
-Proof.
-  exists [LSubscribe 1 1; LSendCall 1; LSendLock 1; LSendBadType 1; LUnsubCall 1].
-  eexists. exists 1. split; [vm_compute; reflexivity|].
-  split; [reflexivity|]. split.
-  - intros c'. destruct c' as [|[|c']]; vm_compute; auto.
-  - vm_compute. auto.
-Qed.
-
-Lemma mu_leaked_forever : forall st l st', mu_leaked st = true -> step st l = Some st' -> mu_leaked st' = true.
-Proof. intros st l st' L H. inv_step H; unfold deliver; simpl; auto; congruence. Qed.
-
 (* ================================================================ invariant L: sendLock is a lock *)
+Definition holding (p : spc) : bool := match p with SLocked | STry _ | SSelect => true | _ => false end.
+Definition active (p : spc) : bool := match p with STry _ | SSelect => true | _ => false end.
+Definition removed (r : rpc) : bool := match r with RLocked | RHanded | RDone | RRet => true | _ => false end.
+
 Definition InvL (st : state) : Prop :=
   (forall s, holding (s_pc (sndr st s)) = true <-> lock st = Some (OSend s)) /\
   (forall c, rem st c = RLocked <-> lock st = Some (ORem c)).
@@ -373,4 +336,3 @@ Proof.
   - intros c1 c2 A B. apply Lr in A. apply Lr in B. congruence.
   - intros s c A B. apply Ls in A. apply Lr in B. congruence.
 Qed.
-
